@@ -49,9 +49,12 @@ def status (started : Bool) (pc : Pc) : String :=
   | .done r => s!"done:{showRes r}"
   | _ => "blocked"
 
-/-- a goroutine godi started itself (the cancellation watcher) is never held back by the harness:
-when it parks in a `Close` method it is released at once, so it never shows in a snapshot -/
-def watcherStatus (_ : Pc) : String := "-"
+/-- the cancellation watcher of `S` (thread `w` of the protocol) shows only when it is parked in a
+`Close` method -/
+def watcherStatus (pc : Pc) : String :=
+  match pc with
+  | .cDrain (i :: _) _ => s!"close{i}"
+  | _ => "-"
 
 def snapshot (st : St) (s : Sys) : String :=
   let ts := (List.range st.n).map (fun t =>
@@ -67,7 +70,7 @@ def snapshot (st : St) (s : Sys) : String :=
 def movers (st : St) (s : Sys) : List Nat :=
   (List.range s.thr.length).filter (fun t =>
     match s.thr[t]? with
-    | some th => (t ≥ st.n || (st.started.getD t false && !isUser th.pc)) && th.enabled s.sh
+    | some th => (t > st.n || ((t == st.n || st.started.getD t false) && !isUser th.pc)) && th.enabled s.sh
     | none => false)
 
 /-- control steps that neither read nor write shared state: they commute with every action of every
@@ -130,16 +133,16 @@ def step (st : St) (ws : List String) : St × String :=
       if i = st.kinds.length then ({ st with kinds := st.kinds ++ [(i, th)] }, "ok") else (st, "bad-op thread ids must be consecutive")
     | _, _ => (st, "bad-op")
   | "go" :: id :: rest =>
-    match id.toNat? with
+    match (if id == "w" then some st.kinds.length else id.toNat?) with
     | none => (st, "bad-op")
     | some t =>
       -- first `go` of a scenario fixes the thread list
       let st := if st.ready then st else
         let thr := st.kinds.map (·.2) ++ [{ start := Pc.wS, pc := Pc.wS }]
         { st with n := st.kinds.length, started := st.kinds.map (fun _ => false), cands := [init thr], ready := true }
-      if t ≥ st.n then (st, "bad-op no such thread") else
+      if t > st.n then (st, "bad-op no such thread") else
       let obs := (splitObs rest).2
-      let wasStarted := st.started.getD t false
+      let wasStarted := t == st.n || st.started.getD t false
       let st' := { st with started := st.started.set t true }
       -- released from user code: its USER action happens now
       let after := if wasStarted then st.cands.filterMap (fun s =>
